@@ -201,20 +201,39 @@ Theorem C18_registry_covered : forall name imm,
 Proof. exact registry_covered. Qed.
 Print Assumptions C18_registry_covered.
 
-(* the repaired code never panics: any function, any arguments, any nesting, any oracle *)
+(* the repaired code never panics: any function, any arguments, any nesting, any oracle —
+   on a query that has a variable map (WithVars) *)
 Theorem C18_never_panics : forall O C,
+  vars C <> None ->
   (forall name args, call Repaired O C name args <> Panic) /\
   (forall e, eval Repaired O C e <> Panic).
-Proof. intros O C. split; [apply call_np | apply eval_np]. Qed.
+Proof. intros O C Hv. split; [intros; apply call_np; exact Hv | intros; apply eval_np; exact Hv]. Qed.
 Print Assumptions C18_never_panics.
 
-(* ... whereas the pinned code does (D41 and relatives) *)
+(* ... and without one, the ONLY panic is SETVAR's write into the nil map (it is there on both
+   trees).  The engine's recover frame around exec catches it: at the API level
+   ([catch_panic], what Exec returns) it is an error, never a panic — for every expression, on
+   both trees.  This is not a C18 defect (C10 forbids only escaping panics; C20 is stated with
+   variables enabled), so the correspondence expects class `error` for it. *)
+Theorem C18_only_panic_is_setvar_nil_map : forall O C,
+  (forall name args, call Repaired O C name args = Panic ->
+     lookup_builtin (ascii_lower name) = Some BSetVar /\ vars C = None) /\
+  (forall V cs, call V O {| consts := cs; vars := None |} "setvar" [VStr "a"; VNum 1%float] = Panic) /\
+  (forall V e, catch_panic (eval V O C e) <> Panic).
+Proof.
+  intros O C.
+  split; [apply call_panic_only_setvar|].
+  split; [intros V cs; apply setvar_nil_map_panics|].
+  intros V e. apply api_eval_np.
+Qed.
+Print Assumptions C18_only_panic_is_setvar_nil_map.
+
+(* ... whereas the pinned code panics in the built-ins themselves (D41 and relatives) *)
 Theorem C18_pinned_refuted : forall O C,
   call Pinned O C "elementat" [VArr [VNum 1%float]; VNum (-1)%float] = Panic /\
   call Pinned O C "if" [VNull; VNum 1%float; VNum 2%float] = Panic /\
   call Pinned O C "to_upper" [VNull] = Panic /\
-  call Pinned O C "sum" [VNull] = Panic /\
-  call Pinned O {| consts := None; vars := None |} "setvar" [VStr "a"; VNum 1%float] = Panic.
+  call Pinned O C "sum" [VNull] = Panic.
 Proof. exact pinned_refuted. Qed.
 Print Assumptions C18_pinned_refuted.
 
